@@ -23,6 +23,9 @@ Proof.
   - intros x y -> [Hy HPy]. simpl. exists (F y). split; [apply HI; exact Hy|exact HPy].
 Qed.
 
+Lemma cancel_l (a y : R) : a <> 0 -> a * (/ a * y) = y.
+Proof. intros. field. assumption. Qed.
+
 Section Integral.
 Variable ora : nat -> list R -> R.
 Notation OR := (Rops3 ora).
@@ -43,7 +46,7 @@ Lemma integral_scale_exponential len resc :
   0 < len -> 0 < resc ->
   let lr := len_rescaled OR len resc in
   is_RInt_gen (correlation_of OR (cor_exponential OR) lr) (at_point 0) (Rbar_locally p_infty)
-              (intscale_exponential OR lr).
+              (intscale_exponential lr).
 Proof.
   intros Hl Hs lr. unfold intscale_exponential.
   assert (Hlr : 0 < lr). { unfold lr, len_rescaled. rsimp. apply Rmult_lt_0_compat; [lra|apply Rinv_0_lt_compat; lra]. }
@@ -52,52 +55,53 @@ Proof.
     + intros x Hx. rewrite Rmin_left, Rmax_right in Hx by lra.
       unfold correlation_of, cor_exponential. rsimp. rewrite (Rabs_pos_eq x) by lra. reflexivity.
     + apply is_RInt_exp_decay; lra.
-  - replace (Finite lr) with (Rbar_minus (Finite lr) (Rbar_mult (Finite lr) (Finite 0))) by (simpl; f_equal; ring).
-    apply is_lim_minus'. apply is_lim_const.
-    apply is_lim_scal_l. apply is_lim_comp with m_infty.
-    + apply is_lim_exp_m.
-    + replace m_infty with (Rbar_opp p_infty) by reflexivity. apply is_lim_opp.
-      apply (is_lim_ext (fun b => / lr * b)). { intros y. field. lra. }
-      replace p_infty with (Rbar_mult (Finite (/ lr)) p_infty).
-      * apply is_lim_scal_l. apply is_lim_id.
-      * simpl. destruct (Rle_dec 0 (/ lr)) as [H|H].
-        -- destruct (Rle_lt_or_eq_dec 0 (/ lr) H) as [H'|H']; [reflexivity|].
-           assert (0 < / lr) by (apply Rinv_0_lt_compat; lra). lra.
-        -- assert (0 < / lr) by (apply Rinv_0_lt_compat; lra). lra.
-    + exists 0. intros x _ E. discriminate E.
+  - assert (Hinv : 0 < / lr) by (apply Rinv_0_lt_compat; lra).
+    assert (E0 : is_lim (fun b => exp (- (b / lr))) p_infty 0).
+    { apply is_lim_comp with m_infty.
+      - apply is_lim_exp_m.
+      - apply (is_lim_ext (fun b => (- / lr) * b)). { intros y. field. lra. }
+        evar_last. apply is_lim_scal_l. apply is_lim_id.
+        simpl. destruct (Rle_dec 0 (- / lr)) as [H|H]; [exfalso; lra|]. reflexivity.
+      - exists 0. intros x _ E. discriminate E. }
+    assert (E1 : is_lim (fun b => lr * exp (- (b / lr))) p_infty (lr * 0)).
+    { apply (is_lim_scal_l (fun b => exp (- (b / lr))) lr p_infty (Finite 0)). exact E0. }
+    replace lr with (lr - lr * 0) at 1 by ring.
+    apply (is_lim_minus' (fun _ => lr) (fun b => lr * exp (- (b / lr))) p_infty lr (lr * 0)).
+    + apply is_lim_const.
+    + exact E1.
 Qed.
 
 (* ---------- compactly supported models: c = P on [0,1), 0 beyond; Q' = P on [0,1] *)
-Lemma integral_scale_compact (c P : R -> R) (I : R) len resc :
+Lemma integral_scale_compact (c P : R -> R) (J : R) len resc :
   0 < len -> 0 < resc ->
   (forall h, 0 <= h < 1 -> c h = P h) -> (forall h, 1 <= h -> c h = 0) ->
-  is_RInt P 0 1 I ->
+  is_RInt P 0 1 J ->
   let lr := len_rescaled OR len resc in
-  is_RInt_gen (correlation_of OR c lr) (at_point 0) (Rbar_locally p_infty) (lr * I).
+  is_RInt_gen (correlation_of OR c lr) (at_point 0) (Rbar_locally p_infty) (lr * J).
 Proof.
-  intros Hl Hs HP H0 HI lr.
+  intros Hl Hs HP H0 HJ lr.
   assert (Hlr : 0 < lr). { unfold lr, len_rescaled. rsimp. apply Rmult_lt_0_compat; [lra|apply Rinv_0_lt_compat; lra]. }
-  apply (RInt_gen_from_primitive _ (fun _ => lr * I) lr); [|apply is_lim_const].
+  apply (RInt_gen_from_primitive _ (fun _ => lr * J) lr); [|apply is_lim_const].
   intros b Hb.
-  replace (lr * I) with (plus (lr * I) 0) by (unfold plus; simpl; ring).
-  apply is_RInt_Chasles with lr.
+  replace (lr * J) with (plus (lr * J) 0) by (unfold plus; simpl; ring).
+  apply (is_RInt_Chasles (V:=R_NormedModule) _ 0 lr b (lr * J) 0).
   - (* [0, lr] : substitution h = r / lr *)
     apply (is_RInt_ext (fun r => lr * (/ lr * P (/ lr * r + 0)))).
     + intros x Hx. rewrite Rmin_left, Rmax_right in Hx by lra.
       unfold correlation_of. rsimp. rewrite (Rabs_pos_eq x) by lra. rewrite HP.
-      * replace (/ lr * x + 0) with (x / lr) by (field; lra). field. lra.
+      * replace (/ lr * x + 0) with (x / lr) by (field; lra). apply cancel_l. lra.
       * split; [apply Rmult_le_pos; [lra|left; apply Rinv_0_lt_compat; lra]|].
         apply Rmult_lt_reg_r with lr; [lra|]. replace (x / lr * lr) with x by (field; lra). lra.
-    + apply (is_RInt_scal (fun r => / lr * P (/ lr * r + 0)) 0 lr lr I).
-      apply (is_RInt_comp_lin P (/ lr) 0 0 lr I).
-      replace (/ lr * 0 + 0) with 0 by ring. replace (/ lr * lr + 0) with 1 by (field; lra). exact HI.
+    + apply (is_RInt_scal (fun r => / lr * P (/ lr * r + 0)) 0 lr lr J).
+      apply (is_RInt_comp_lin P (/ lr) 0 0 lr J).
+      replace (/ lr * 0 + 0) with 0 by ring. replace (/ lr * lr + 0) with 1 by (field; lra). exact HJ.
   - (* [lr, b] : zero *)
     apply (is_RInt_ext (fun _ => 0)).
     + intros x Hx. rewrite Rmin_left, Rmax_right in Hx by lra.
       unfold correlation_of. rsimp. rewrite (Rabs_pos_eq x) by lra. symmetry. apply H0.
       apply Rmult_le_reg_r with lr; [lra|]. replace (x / lr * lr) with x by (field; lra). lra.
-    + replace 0 with (scal (b - lr) 0) at 2 by (unfold scal; simpl; unfold mult; simpl; ring).
-      apply (is_RInt_const lr b 0).
+    + evar_last. apply (is_RInt_const (V:=R_NormedModule) lr b 0).
+      unfold scal; simpl; unfold mult; simpl. apply Rmult_0_r.
 Qed.
 
 (* polynomial pieces: value of the integral over [0,1] from an explicit antiderivative *)
@@ -136,7 +140,7 @@ Proof.
   2:{ unfold Q, minus, plus, opp; simpl. rewrite Rminus_0_r, Rminus_diag_eq by reflexivity.
       rewrite pow1, Rmult_0_l. field. destruct n; [simpl; lra|]. exact Hn. }
   apply (is_RInt_derive Q (fun h => (1 - h) ^ n)).
-  - intros x _. unfold Q. auto_derive; [exact I|]. rewrite Nat.pred_succ. field. exact Hn.
+  - intros x _. unfold Q. auto_derive; [exact I|]. change (match n with 0%nat => 1 | S _ => INR n + 1 end) with (INR (S n)). unfold Rminus. field. exact Hn.
   - intros x _. apply (ex_derive_continuous (fun h => (1 - h) ^ n)). auto_derive. exact I.
 Qed.
 
